@@ -185,6 +185,28 @@ def run(ctx):
         ctx.add(Obligation('C06.init.invariant', _clauses(paths, post_init), where=where, meta=dict(clause='a new branch has no constants/worlds and satisfies the freshness invariant')))
     except Outside as e:
         ctx.add_result(Result('C06.init.invariant', 'unknown', detail=f'outside subset: {e}'))
+    copy_obligations(ctx)
+    # ---------------- new_constant / new_world
+    for nm, fld in (('new_constant', '_nextconst'), ('new_world', '_nextworld')):
+        try:
+            def setup_new(it):
+                b = B.BranchObj('b'); return [b], {}, dict(b=b)
+            fi, paths = run_method(nm, setup_new)
+            where = ctx.under_contract(fi)
+            ok = all(pr.kind == 'return' and pr.value is st['b'].f[fld] and not st['b'].written for pr, st in paths) and len(paths) == 1
+            ctx.add(enum_ob(f'C06.{nm}.returns-field', ok, where=where, clause=f'{nm}() returns self.{fld} and writes nothing', cex=dict(paths=len(paths))))
+        except Outside as e:
+            ctx.add_result(Result(f'C06.{nm}.returns-field', 'unknown', detail=f'outside subset: {e}'))
+    next_obligations(ctx)
+    frame_scan(ctx)
+    witness_obligations(ctx)
+    bounded_histories(ctx)
+    ctx.replayers['C06.append'] = replay_history
+    ctx.replayers['C06.copy'] = replay_history
+    ctx.replayers['C06.'] = lambda r: dict(reproduced=None, detail='see counterexample')
+
+def copy_obligations(ctx, prefix='C06'):
+    "Branch.copy interpreted from source: equal bookkeeping, fresh objects holding copies of the original's fields, the original untouched"
     # ---------------- copy
     try:
         def setup_copy(it):
@@ -205,7 +227,7 @@ def run(ctx):
             except (KeyError, AttributeError):
                 return z3.BoolVal(False)
             return z3.And(*eqs, *[g for _, g in B.inv_fresh(c)])
-        ctx.add(Obligation('C06.copy.equal-and-fresh', _clauses(paths, post_copy), hyps=hyps, where=where,
+        ctx.add(Obligation(f'{prefix}.copy.equal-and-fresh', _clauses(paths, post_copy), hyps=hyps, where=where,
                            meta=dict(clause='the copy has the same constants/worlds/next items and satisfies the invariant')))
         indep = True; why = []
         for pr, st in paths:
@@ -213,29 +235,15 @@ def run(ctx):
             c, b = pr.value, st['b']
             for fld in ('_constants', '_worlds', '_nodes', '_ticked', '_index'):
                 if c.f.get(fld) is None or c.f.get(fld) is b.f.get(fld): indep = False; why.append(fld)
+            # ... and has the content of the original's field: the nodes, the ticks and the node index are .copy() of the original's
+            for fld in ('_nodes', '_ticked', '_index', 'events'):
+                if getattr(c.f.get(fld), 'copy_of', None) is not b.f.get(fld): indep = False; why.append(f'{fld} is not a copy of the original\'s {fld}')
+            if 'parent' in st and c.f.get('parent') is not st['parent'] and c.f.get('_parent') is not st['parent']: indep = False; why.append('parent is not the branch given as parent=')
             if b.written: indep = False; why.append('writes to the original: ' + ','.join(b.written))
-        ctx.add(enum_ob('C06.copy.independent', indep, where=where, cex=dict(shared=why),
-                        clause='every mutable field of the copy is a fresh object (set.copy/qset.copy/Index.copy), the original is not written'))
+        ctx.add(enum_ob(f'{prefix}.copy.independent', indep, where=where, cex=dict(shared=why),
+                        clause='every mutable field of the copy is a fresh object holding a .copy() of the original\'s field (nodes, ticks, node index, events), the original is not written'))
     except Outside as e:
-        ctx.add_result(Result('C06.copy.equal-and-fresh', 'unknown', detail=f'outside subset: {e}'))
-    # ---------------- new_constant / new_world
-    for nm, fld in (('new_constant', '_nextconst'), ('new_world', '_nextworld')):
-        try:
-            def setup_new(it):
-                b = B.BranchObj('b'); return [b], {}, dict(b=b)
-            fi, paths = run_method(nm, setup_new)
-            where = ctx.under_contract(fi)
-            ok = all(pr.kind == 'return' and pr.value is st['b'].f[fld] and not st['b'].written for pr, st in paths) and len(paths) == 1
-            ctx.add(enum_ob(f'C06.{nm}.returns-field', ok, where=where, clause=f'{nm}() returns self.{fld} and writes nothing', cex=dict(paths=len(paths))))
-        except Outside as e:
-            ctx.add_result(Result(f'C06.{nm}.returns-field', 'unknown', detail=f'outside subset: {e}'))
-    next_obligations(ctx)
-    frame_scan(ctx)
-    witness_obligations(ctx)
-    bounded_histories(ctx)
-    ctx.replayers['C06.append'] = replay_history
-    ctx.replayers['C06.copy'] = replay_history
-    ctx.replayers['C06.'] = lambda r: dict(reproduced=None, detail='see counterexample')
+        ctx.add_result(Result(f'{prefix}.copy.equal-and-fresh', 'unknown', detail=f'outside subset: {e}'))
 
 def _emsg(what, args):
     from pytableaux.errors import Emsg
